@@ -602,7 +602,12 @@ func runC12(c C12Case) (st c12Stats, v *Violation) {
 		sch.mu.Lock()
 		defer sch.mu.Unlock()
 		for _, t := range sch.tasks {
-			if !t.adopted && t.state != tsDone {
+			if t.adopted || t.finished == nil {
+				continue
+			}
+			select {
+			case <-t.finished:
+			default:
 				return false
 			}
 		}
